@@ -267,7 +267,7 @@ impl Prop for C17 {
         }
         let tie = graph_strategy(&ALL_KINDS, 2, 14, me, &[0, 0, 3], 7);
         let big = graph_strategy(&ALL_KINDS, 15, 40, me, &[0, 3], 6);
-        let wtd = graph_strategy(&ALL_KINDS, 2, 14, me, &[1, 4, 6, 7, 10, 10], 5);
+        let wtd = graph_strategy(&ALL_KINDS, 2, 14, me, &[1, 4, 6, 7, 7, 10, 10, 13, 14], 5);
         let algos = graph_strategy(&ALL_KINDS, 0, 24, me, &[0, 1, 4], 3);
         fn few(_n: usize) -> usize {
             3
@@ -275,13 +275,13 @@ impl Prop for C17 {
         // tie-breaking proper: clusters with satellites that have several equally, or almost
         // equally (weights spaced at a fraction of the library's gain tolerance), attractive
         // communities to join
-        let sat = graph_strategy(&ALL_KINDS, 10, 40, few, &[10, 10, 10, 0, 3], 0).prop_map(|mut g| {
+        let sat = graph_strategy(&ALL_KINDS, 10, 40, few, &[10, 10, 10, 0, 3, 7, 7, 13, 14], 0).prop_map(|mut g| {
             g.shape = 11;
             g
         });
         prop_oneof![
-            12 => (prop_oneof![60 => tie, 10 => big, 30 => wtd, 15 => sat, 1 => boundary_graph_strategy(&ALL_KINDS, me, &[0, 3], 6, 192)], crate::props::c16::seed_strategy(), prop_oneof![2 => Just(255u8), 1 => any::<u8>()], 0u8..5, any::<bool>()).prop_map(|(g, seed, res, thr, weighted)| {
-                let thr = if matches!(g.wmode, 4 | 7 | 10) && thr % 5 == 1 { 2 } else { thr };
+            12 => (prop_oneof![50 => tie, 10 => big, 40 => wtd, 15 => sat, 1 => boundary_graph_strategy(&ALL_KINDS, me, &[0, 3], 6, 192)], crate::props::c16::seed_strategy(), prop_oneof![2 => Just(255u8), 1 => any::<u8>()], 0u8..5, any::<bool>()).prop_map(|(g, seed, res, thr, weighted)| {
+                let thr = if matches!(g.wmode, 4 | 7 | 10 | 13 | 14) && thr % 5 == 1 { 2 } else { thr };
                 DetCase::Louvain { g, seed, res, thr, weighted }
             }),
             2 => (0u16..=120, 1u16..999, any::<bool>(), crate::props::c16::seed_strategy()).prop_map(|(n, p_milli, directed, seed)| DetCase::Gnp { n, p_milli, directed, seed }),
@@ -296,6 +296,7 @@ impl Prop for C17 {
         let mut out = Outcome::new();
         let tag = match case {
             DetCase::Louvain { g, weighted, .. } if matches!(g.wmode, 4 | 7) && *weighted => "louvain[weighted,non_dyadic_weights]",
+            DetCase::Louvain { g, weighted, .. } if matches!(g.wmode, 13 | 14) && *weighted => "louvain[weighted,non_dyadic_weights_1e4_to_1e6]",
             DetCase::Louvain { g, weighted, .. } if g.wmode == 10 && *weighted => "louvain[weighted,near_ties_at_tolerance_scale]",
             DetCase::Louvain { .. } => "louvain[exact_arithmetic]",
             DetCase::Gnp { .. } => "fast_gnp_random_graph",
